@@ -53,7 +53,7 @@ def _gen_hand(rng, o):
             pouts = nodes[p]["outs"] or ["0"]
             inputs.append([f"in{k}", p, rng.choice(pouts)])
         args = [["in", x[0]] for x in inputs]
-        for _ in range(rng.randint(0, 2)):
+        for _ in range(rng.randint(0, 2) if rng.random() > 0.08 else rng.randint(8, 13)):
             args.insert(rng.randint(0, len(args)), ["static", rng.choice([rng.randint(0, 9), f"S{rng.randint(0, 9)}", None, 2.5])])
         if inputs and rng.randrange(100) < o["dup_arg_pct"]:
             args.append(["in", inputs[0][0]])      # one input used in two positions
@@ -67,7 +67,7 @@ def _gen_hand(rng, o):
 
 def _gen_fluent(rng, o):
     """A small fluent program: source (optionally a generator) -> steps of map / map-with-yields / reduce / join."""
-    nsrc = rng.choice([1, 2, 3, 3, 4, 5, 6, 7])
+    nsrc = rng.choice([1, 2, 3, 3, 4, 5, 6, 7, 11, 12, 13])
     ky = _nout(rng, o)
     steps = []
     depth = rng.randint(0, 3)
